@@ -13,6 +13,7 @@ import (
 	"math"
 	"math/rand/v2"
 	"reflect"
+	"regexp"
 	"strings"
 
 	"github.com/WuKongIM/WuKongIM/internal/verifh/vh"
@@ -202,6 +203,14 @@ func genRecord(r *rand.Rand, epoch, index uint64) recordIn {
 	if r.IntN(3) == 0 {
 		rec.Index = 0
 	}
+	// a field that itself looks like "bytes, u64 length, that many bytes": only the
+	// length prefix of the PRECEDING field keeps the "embed" probes from colliding
+	switch r.IntN(8) {
+	case 0:
+		rec.ClientMsgNo = embedShape(r)
+	case 1:
+		rec.Payload = embedShape(r)
+	}
 	switch r.IntN(120) {
 	case 0:
 		rec.ID = 0
@@ -215,6 +224,23 @@ func genRecord(r *rand.Rand, epoch, index uint64) recordIn {
 		rec.TS = math.MaxInt64
 	}
 	return rec
+}
+
+func embedShape(r *rand.Rand) string {
+	a, b := vh.Bytes(r, r.IntN(4)), vh.Bytes(r, r.IntN(5))
+	out := append([]byte(nil), a...)
+	out = binary.BigEndian.AppendUint64(out, uint64(len(b)))
+	return hex.EncodeToString(append(out, b...))
+}
+
+// splitEmbedded finds y = a ‖ be64(len(b)) ‖ b.
+func splitEmbedded(y []byte) (a, b []byte, ok bool) {
+	for k := 0; k+8 <= len(y); k++ {
+		if binary.BigEndian.Uint64(y[k:k+8]) == uint64(len(y)-k-8) {
+			return y[:k], y[k+8:], true
+		}
+	}
+	return nil, nil, false
 }
 
 var entryFields = []string{"e.version", "e.epoch", "e.term", "e.fence", "e.index", "e.prev_term", "e.prev_index",
@@ -233,6 +259,8 @@ func genProbe(r *rand.Rand, nrec int) probeIn {
 		p.Field, p.Mode = "boundary", vh.Pick(r, "uid>clientno", "clientno>payload", "clientno<payload", "uid<clientno")
 	case x == 2:
 		p.Field, p.U = "other", uint64(r.IntN(nrec+1))
+	case x == 3:
+		p.Field, p.Mode = "embed", vh.Pick(r, "uid", "clientno")
 	case x < 9:
 		p.Field = vh.Pick(r, entryFields...)
 	default:
@@ -261,7 +289,7 @@ func genProbe(r *rand.Rand, nrec int) probeIn {
 		}
 	case "r.sync":
 		p.Mode = "flip"
-	case "none", "boundary", "other":
+	case "none", "boundary", "other", "embed":
 	default:
 		switch r.IntN(6) {
 		case 0:
@@ -429,6 +457,20 @@ func applyProbe(p probeIn, e quorumlog.EntryIdentity, r quorumlog.Record, recs [
 			}
 		}
 		r.FromUID, r.ClientMsgNo, r.Payload = string(uid), string(cno), pl
+	case "embed":
+		// x ‖ L(y) ‖ y with y = a ‖ be64(len b) ‖ b  becomes  x' = x ‖ be64(len y) ‖ a, y' = b:
+		// the same bytes after x's own length prefix
+		uid, cno, pl := []byte(r.FromUID), []byte(r.ClientMsgNo), r.Payload
+		if p.Mode == "uid" {
+			if a, b, ok := splitEmbedded(cno); ok {
+				uid = append(binary.BigEndian.AppendUint64(append([]byte(nil), uid...), uint64(len(cno))), a...)
+				cno = b
+			}
+		} else if a, b, ok := splitEmbedded(pl); ok {
+			cno = append(binary.BigEndian.AppendUint64(append([]byte(nil), cno...), uint64(len(pl))), a...)
+			pl = b
+		}
+		r.FromUID, r.ClientMsgNo, r.Payload = string(uid), string(cno), pl
 	case "e.version":
 		e.Version = uint16(pertU64(uint64(e.Version), p))
 	case "e.epoch":
@@ -577,13 +619,43 @@ func run(in input) vh.Result {
 	}
 	class = fmt.Sprintf("%s,n=%d,accepted_probes=%d", class, len(recs), min(acc, 3))
 	return vh.Result{
-		Coq: vh.App("C05Case", coqManifest(m), vh.List(coqRecs), seal, vh.B(same), vh.B(structValid), vh.B(validFor),
-			vh.List(self), vh.List(probes)),
+		Coq: internHex(vh.App("C05Case", coqManifest(m), vh.List(coqRecs), seal, vh.B(same), vh.B(structValid), vh.B(validFor),
+			vh.List(self), vh.List(probes))),
 		Obs: map[string]any{"sealed": ok, "manifest_digest": hex.EncodeToString(sealed.Digest[:]), "same": same,
 			"self_verify": self, "probes": obsProbes},
 		Class:   class,
 		Trivial: len(in.Ops) == 0 && !ok,
 	}
+}
+
+var hexTok = regexp.MustCompile(`\(hx "[0-9a-f]{16,}"\)`)
+
+// internHex binds every byte string that occurs more than once in the case term
+// to a let variable (Coq spends most of its time parsing string literals).
+func internHex(term string) string {
+	count := map[string]int{}
+	var order []string
+	for _, t := range hexTok.FindAllString(term, -1) {
+		if count[t] == 0 {
+			order = append(order, t)
+		}
+		count[t]++
+	}
+	var lets strings.Builder
+	k := 0
+	for _, t := range order {
+		if count[t] < 2 {
+			continue
+		}
+		name := fmt.Sprintf("b%d", k)
+		k++
+		term = strings.ReplaceAll(term, t, name)
+		fmt.Fprintf(&lets, "let %s := %s in ", name, t)
+	}
+	if k == 0 {
+		return term
+	}
+	return "(" + lets.String() + term + ")"
 }
 
 func emitConsts(w io.Writer) {
